@@ -1,0 +1,16 @@
+// Copyright (c) 2020, Peter Ohler, All rights reserved.
+
+//go:build verif
+
+package alt
+
+// VerifHook, when set by a verification harness, is called at the pool and
+// cache linearization points of this package. It is only compiled in with
+// the verif build tag.
+var VerifHook func(point string, inst any)
+
+func verifHook(point string, inst any) {
+	if h := VerifHook; h != nil {
+		h(point, inst)
+	}
+}
